@@ -30,6 +30,11 @@ GEOMS = {
 
 
 def molecule(name, d, uhf=False, frozen=None, basis="sto-3g"):
+    """Cached molecule. A name suffix _f<digits> freezes those orbitals (H4_f0: one frozen occupied orbital,
+    H4_f03: one occupied + one virtual)."""
+    if "_f" in name and frozen is None:
+        name, digits = name.split("_f")
+        frozen = [int(ch) for ch in digits]
     key = (name, d, uhf, str(frozen), basis)
     if key not in _MOLS:
         from tangelo import SecondQuantizedMolecule
@@ -41,19 +46,20 @@ def molecule(name, d, uhf=False, frozen=None, basis="sto-3g"):
 
 # catalogue of configurations: (ansatz, molecule names, mappings, orderings, option variants)
 CATALOG = [
-    ("UCCSD", ["H2", "H2", "H2_triplet", "H3_doublet", "H4", "H4_cation"], ["jw", "bk", "scbk", "jkmn"], [False, True], [{}]),
+    ("UCCSD", ["H2", "H2", "H2_triplet", "H3_doublet", "H4", "H4_cation", "H4_f0", "H4_f03"], ["jw", "bk", "scbk", "jkmn"], [False, True], [{}]),
     ("UCCSD_UHF", ["H2", "H4_cation"], ["jw"], [False, True], [{}]),
     ("UCC1", [None], [None], [None], [{}]),
     ("UCC3", [None], [None], [None], [{}]),
-    ("UpCCGSD", ["H2", "H2", "H4", "H3_doublet"], ["jw", "bk", "scbk", "jkmn"], [False, True], [{"k": 1}, {"k": 2}, {"k": 3}, {"k": 4}]),
+    ("UpCCGSD", ["H2", "H2", "H4", "H3_doublet", "H4_f0"], ["jw", "bk", "scbk", "jkmn"], [False, True], [{"k": 1}, {"k": 2}, {"k": 3}, {"k": 4}]),
     ("UCCGD", ["H2", "H2", "H4"], ["jw", "bk", "jkmn"], [False, True], [{}]),
-    ("HEA", ["H2", "H4"], ["jw", "bk", "scbk"], [False, True], [{"n_layers": 1, "rot_type": "euler"}, {"n_layers": 2, "rot_type": "euler"},
+    ("HEA", ["H2", "H4", "H4_f03"], ["jw", "bk", "scbk"], [False, True], [{"n_layers": 1, "rot_type": "euler"}, {"n_layers": 2, "rot_type": "euler"},
                                                                    {"n_layers": 3, "rot_type": "real"}, {"n_layers": 2, "rot_type": "real"}]),
     ("QMF", ["H2", "H4", "H4_cation"], ["jw", "bk", "scbk", "jkmn"], [True, False], [{}]),
     ("QCC", ["H2", "H4"], ["jw", "bk", "scbk"], [True], [{}, {"max_qcc_gens": 2}]),
     ("ILC", ["H2", "H4"], ["jw", "bk", "scbk"], [True], [{}, {"max_ilc_gens": 2}]),
     ("VSQS", ["H2", "H2", "H4"], ["jw", "bk", "scbk"], [False, True], [{"intervals": 2, "trotter_order": 1}, {"intervals": 3, "trotter_order": 2},
-                                                                        {"intervals": 2, "trotter_order": 1, "h_nav": True}]),
+                                                                        {"intervals": 2, "trotter_order": 1, "h_nav": True}, {"intervals": 3, "trotter_order": 1, "h_nav": True},
+                                                                        {"intervals": 4, "trotter_order": 2, "h_nav": True}, {"intervals": 4, "trotter_order": 1}]),
     ("pUCCD", ["H2", "H4", "H4_ring"], [None], [None], [{}]),
     ("ADAPT", ["H2", "H4"], ["jw", "bk"], [False, True], [{}]),
     ("VarCirc", [None], [None], [None], [{}]),
